@@ -183,9 +183,12 @@ def run_check(prop: str, tier: str = "quick", seed: int = 0, replay: str | None 
     violations = []
     byid = {o["id"]: o for o in obs}
     drift: dict[str, int] = {}
+    advisory = getattr(chk, "advisory", lambda o: False)
     for oid, clauses in rejects:
         o = byid[oid]
         for cl in clauses:
+            if advisory(o) and not cl.startswith("Drift/"):
+                cl = "Drift/advisory:" + cl
             if cl.startswith("Drift/"):      # the code no longer follows the Impl transcription: reported, never an alarm
                 drift[cl] = drift.get(cl, 0) + 1
                 continue
